@@ -27,7 +27,7 @@ func init() {
 	register(&Rule{Name: "PARAM-ORDER", Floor: 2,
 		Doc: "the parameter list handed to every stream is composed so that path captures come after query parameters (params.set is last-writer-wins)",
 		Run: ruleParamOrder})
-	register(&Rule{Name: "LAST-WRITER", Floor: 2,
+	register(&Rule{Name: "LAST-WRITER", Floor: 3,
 		Doc: "params.set ranges forward over the list and assigns singular fields unconditionally (no test of an already-set field)",
 		Run: ruleLastWriter})
 	register(&Rule{Name: "DECODE-THEN-PARAMS", Floor: 3,
@@ -254,6 +254,67 @@ func ruleLastWriter(r *Run) {
 	})
 	if nSet == 0 {
 		r.bad(key+"/set-unconditional", fn.Pos(), "no protoreflect Message.Set call: parameters are never applied to singular fields")
+		return
+	}
+	// must-pass-through: once the field is known to be singular (neither list nor map), every path to the next
+	// parameter / the return passes Set. Any condition on that path (Has, "value is the default", …) lets an
+	// earlier writer win for some value.
+	isSet := func(in ssa.Instruction) bool {
+		c, ok := in.(ssa.CallInstruction)
+		return ok && c.Common().IsInvoke() && c.Common().Method.Name() == "Set" && c.Common().Method.Pkg() != nil && c.Common().Method.Pkg().Path() == protoreflect
+	}
+	var setCall ssa.CallInstruction
+	eachInstr(fn, func(in ssa.Instruction) {
+		if isSet(in) {
+			setCall = in.(ssa.CallInstruction)
+		}
+	})
+	fd := setCall.Common().Args[0]
+	// outer loop header: the block of the receiver-range index phi
+	var header *ssa.BasicBlock
+	eachInstr(fn, func(in ssa.Instruction) {
+		if ia, ok := in.(*ssa.IndexAddr); ok && ia.X == ssa.Value(recv) {
+			if ph := indexPhi(ia.Index); ph != nil {
+				header = ph.Block()
+			}
+		}
+	})
+	checked := false
+	for _, b := range fn.Blocks {
+		ifi := blockIf(b)
+		if ifi == nil || p.knownSingular(fd, b) {
+			continue
+		}
+		for succ := 0; succ < 2; succ++ {
+			sb := b.Succs[succ]
+			if !p.knownSingular(fd, sb) {
+				continue
+			}
+			checked = true
+			q := pathQuery{fn: fn, start: ifi, barrier: isSet,
+				edgeOK: func(bb *ssa.BasicBlock, ss int) bool { return bb != b || ss == succ },
+				target: func(x ssa.Instruction) bool {
+					if isReturn(x) {
+						// an error return (map fields unsupported …) is not "skipping the write"
+						rt := x.(*ssa.Return)
+						for _, o := range p.origins(rt.Results[0], originOpts{}) {
+							if !isNilConst(o) {
+								return false
+							}
+						}
+						return true
+					}
+					return header != nil && x.Block() == header
+				}}
+			if w, _ := q.find(); w != nil {
+				r.bad(key+"/set-on-every-path", ifi.Pos(), "for a singular field there is a path to the next parameter that skips Message.Set (%s): for some values the later (path) writer does not overwrite what the query or body put there", p.describePath(w))
+			} else {
+				r.ok(key+"/set-on-every-path", ifi.Pos(), "once the field is known singular every path to the next parameter passes Message.Set")
+			}
+		}
+	}
+	if !checked {
+		r.undecided(key+"/set-on-every-path", fn.Pos(), "could not locate the edge after which the field is known to be singular")
 	}
 }
 
